@@ -4,24 +4,17 @@
 #define TETL_TYPE_TRAITS_IS_CONSTRUCTIBLE_HPP
 
 #include <etl/_type_traits/bool_constant.hpp>
-#include <etl/_type_traits/declval.hpp>
-#include <etl/_type_traits/void_t.hpp>
 
 namespace etl {
 
-namespace detail {
-template <typename, typename T, typename... Args>
-struct is_constructible_helper : false_type { };
+/// \brief If T is an object or reference type and the variable definition
+/// `T obj(declval<Args>()...);` is well-formed, provides the member constant
+/// value equal to true. In all other cases, value is false.
+template <typename T, typename... Args>
+struct is_constructible : bool_constant<__is_constructible(T, Args...)> { };
 
 template <typename T, typename... Args>
-struct is_constructible_helper<void_t<decltype(T(declval<Args>()...))>, T, Args...> : true_type { };
-} // namespace detail
-
-template <typename T, typename... Args>
-using is_constructible = detail::is_constructible_helper<void_t<>, T, Args...>;
-
-template <typename T, typename... Args>
-inline constexpr bool is_constructible_v = is_constructible<T, Args...>::value;
+inline constexpr bool is_constructible_v = __is_constructible(T, Args...);
 
 } // namespace etl
 
